@@ -347,7 +347,7 @@ func GenProject(t *tape.Tape, o Options) *Project {
 		g.legacyFile = t.Pick(len(g.classes))
 	}
 	if o.Services {
-		g.wideServices = t.Bool(1, 4)
+		g.wideServices = t.Bool(1, 3)
 	}
 	if o.TwinNames && len(g.classes) >= 1 && t.Bool(2, 3) {
 		c := g.classes[t.Pick(len(g.classes))]
